@@ -4,6 +4,7 @@ import (
 	"fmt"
 	"go/token"
 	"go/types"
+	"strconv"
 )
 
 var sizes = types.SizesFor("gc", "amd64")
@@ -147,11 +148,53 @@ type cell struct {
 	stamp int
 }
 
+// alloc creates a heap object. Object identity is the allocation event (call stack, block, instruction,
+// loop iteration counters, n-th allocation of that instruction): two states that reach the same event get the
+// same object id, so that after a join their pointers merge structurally instead of becoming Unions.
 func (e *Engine) alloc(st *State, v Val) int {
-	e.nobj++
 	e.nstamp++
-	st.heap[e.nobj] = cell{v, e.nstamp}
-	return e.nobj
+	var kb []byte
+	for _, f := range st.frames {
+		kb = strconv.AppendInt(kb, int64(f.fnID), 36)
+		kb = append(kb, ':')
+		if f.blk != nil {
+			kb = strconv.AppendInt(kb, int64(f.blk.Index), 36)
+		}
+		kb = append(kb, ':')
+		kb = strconv.AppendInt(kb, int64(f.ip), 36)
+		kb = append(kb, ':')
+		kb = strconv.AppendInt(kb, int64(f.sub), 36)
+		if len(f.iters) > 0 {
+			fi := e.finfo(f.fn)
+			for _, h := range fi.loopsOf[f.blk] {
+				kb = append(kb, '@')
+				kb = strconv.AppendInt(kb, int64(f.iters[h]), 36)
+			}
+		}
+		kb = append(kb, '/')
+	}
+	kb = append(kb, '#')
+	kb = strconv.AppendInt(kb, int64(e.allocSub), 36)
+	if e.inInit {
+		kb = append(kb, 'i')
+	}
+	e.allocSub++
+	key := string(kb)
+	id, ok := e.siteIDs[key]
+	if ok {
+		if _, live := st.heap[id]; live {
+			ok = false // same event seen twice on one path (should not happen): fall back to a fresh object
+		}
+	}
+	if !ok {
+		e.nobj++
+		id = e.nobj
+		if _, dup := e.siteIDs[key]; !dup {
+			e.siteIDs[key] = id
+		}
+	}
+	st.heap[id] = cell{v, e.nstamp}
+	return id
 }
 
 func (e *Engine) cellOf(st *State, obj int) (cell, bool) {
@@ -263,13 +306,33 @@ func (e *Engine) idxRange(idx *Term, n int) (int, int) {
 }
 
 // termRange computes a cheap unsigned interval for a term (no wrap-around cases).
+type rangeRes struct {
+	lo, hi uint64
+	ok     bool
+}
+
 func (e *Engine) termRange(t *Term, depth int) (uint64, uint64, bool) {
 	if t.IsConst() {
 		return t.val, t.val, true
 	}
-	if depth > 6 {
+	if lo, hi := e.b.Rng(t); hi < 1<<40 {
+		return lo, hi, true
+	}
+	if r, ok := e.rangeCache[t]; ok {
+		return r.lo, r.hi, r.ok
+	}
+	if depth > 200 {
 		return 0, 0, false
 	}
+	l, h, ok := e.termRange1(t, depth)
+	if e.rangeCache == nil {
+		e.rangeCache = map[*Term]rangeRes{}
+	}
+	e.rangeCache[t] = rangeRes{l, h, ok}
+	return l, h, ok
+}
+
+func (e *Engine) termRange1(t *Term, depth int) (uint64, uint64, bool) {
 	switch t.op {
 	case OpIte:
 		l1, h1, ok1 := e.termRange(t.args[1], depth+1)
